@@ -6,40 +6,22 @@
 use vstd::prelude::*;
 use vstd::std_specs::iter::IteratorSpec;
 extern crate naga;
+extern crate proc_macro2;
+extern crate wgpu_types;
 extern crate indexmap;
 extern crate rustc_hash;
 use naga::{Function, Module};
 #[path = "../../spec/lib/prelude.rs"] pub mod prelude;
+#[path = "../../spec/lib/iter_shims.rs"] pub mod iter_shims;
+#[macro_use] #[path = "../../spec/lib/tokens.rs"] pub mod tokens;
+#[path = "../../spec/lib/model_common.rs"] pub mod model_common;
+#[path = "../../spec/lib/wgpu_shim.rs"] pub mod wgpu;
+#[path = "../../spec/lib/model_entry.rs"] pub mod model_entry;
 use prelude::*;
+use model_entry::*;
 
 verus! {
 
-
-// ---- model, written from the statement ("as many colour targets as are needed to address every @location it writes") ----
-// wgpu matches a fragment output at @location(l) with color target l, so location l is addressable iff l < N.
-pub open spec fn written_location(b: &Option<naga::Binding>, l: int) -> bool {
-    match b { Some(naga::Binding::Location { location, .. }) => *location as int == l, _ => false }
-}
-// the locations a fragment entry point writes
-pub open spec fn writes(m: &naga::Module, f: &naga::Function, l: int) -> bool {
-    match f.result {
-        None => false,
-        Some(r) => match r.binding {
-            Some(_) => written_location(&r.binding, l),
-            None => match uarena_seq(&m.types)[handle_index(r.ty)].inner {
-                naga::TypeInner::Struct { members, .. } => exists|k: int| 0 <= k < members@.len() && written_location(&#[trigger] members@[k].binding, l),
-                _ => false,
-            },
-        },
-    }
-}
-pub open spec fn needed_targets(m: &naga::Module, f: &naga::Function, n: int) -> bool {
-    &&& forall|l: int| #[trigger] writes(m, f, l) ==> l < n          // every written location is addressable
-    &&& (n == 0 || writes(m, f, n - 1))                                // and not one target more than that
-}
-pub open spec fn result_wf(m: &naga::Module, f: &naga::Function) -> bool {
-    f.result is Some ==> 0 <= handle_index(f.result->0.ty) < uarena_seq(&m.types).len()
-}
 
 //@fn entry.rs::location_target_count
 fn location_target_count(binding: &naga::Binding) -> «(r:» usize«)
